@@ -244,6 +244,12 @@ func (P *Program) posString(pos token.Pos) string {
 
 // lookupType resolves "pkg.Name" (short package names) to a Go type.
 func (P *Program) lookupType(name string) types.Type {
+	if strings.HasPrefix(name, "[]") {
+		if et := P.lookupType(name[2:]); et != nil {
+			return types.NewSlice(et)
+		}
+		return nil
+	}
 	ptr := false
 	if strings.HasPrefix(name, "*") {
 		ptr = true
